@@ -5,7 +5,7 @@ DESCRIPTION = {
     "level": "exploration",
     "rule": ("For each of the 25 message classes Hypothesis draws the subset of optional fields present and their values from per-field "
              "strategies written from the constructor contracts (ids 0/1/2^53, loose+strict URIs, forward_for chains, option enums, payload "
-             "transparency triples, recursive args/kwargs with bytes/nesting/|int|<=2^53/unicode), a serializer from {json,msgpack,cbor,ubjson} x "
+             "transparency triples, recursive args/kwargs with bytes/nesting/|int|<=2^53/unicode/doubles), a serializer from {json,msgpack,cbor,ubjson} x "
              "{batched,unbatched}, and batches of 1-6 mixed messages; plus a serialization-cache history (A,B,A,mutate+uncache,A). Oracle: "
              "unserialize(serialize(batch)) has the same length/order/classes, marshal(result)==marshal(original) (deep, type-strict), every public "
              "attribute equal after the stated normalisation, is_binary flag == serializer.BINARY and JSON output decodes as UTF-8, cached bytes == "
@@ -13,7 +13,7 @@ DESCRIPTION = {
              "(class, present fields, serializer, batched, payload digest)."),
     "assumptions": [
         "absent == falsy default (None/False/''/[]/{}) and tuple == list are treated as equal field values (the wire format omits defaults)",
-        "floats, Decimals and FlatBuffers are outside the statement; JSON strings starting with NUL are the documented binary convention and not generated",
+        "payload floats are finite IEEE doubles in the normal range and must come back as the same float (subnormals come back from the bjdata encoder as an equal Decimal, NaN/inf have no JSON form: not generated); Decimals and FlatBuffers are outside the statement; JSON strings starting with NUL are the documented binary convention and not generated",
         "UBJSON is backed by the installed bjdata package",
     ],
 }
